@@ -803,8 +803,9 @@ class CallsMixin:
         from .layout import concat_layout
         r.lay = concat_layout(self, arrs, ax)
         r.nonneg = all(x.nonneg for x in arrs)
-        lgs = [x.lg for x in arrs]
-        if all(l is not None for l in lgs) and all(l == lgs[0] for l in lgs):
+        lgs = [x.lg for x in arrs if x.note != 'zeros']   # zero blocks: any scale
+        if lgs and all(l is not None for l in lgs) and \
+                all(l == lgs[0] for l in lgs):
             r.lg = lgs[0]
         return r
 
@@ -956,7 +957,7 @@ class CallsMixin:
             r = FLOAT()
         r.taint = a.taint
         r.nonneg = True
-        r.unit = a.unit
+        r.unit = a.unit if a.unit is not None else Fraction(1)
         r.lg = a.lg
         r.deg = a.deg
         if axv is None or axv.k == 'none':
@@ -1029,9 +1030,12 @@ class CallsMixin:
             if a.lg is not None:
                 r.lg = a.lg.scale(Fraction(1, 2))
             if a.unit is not None:
-                r.unit = a.unit / 2
+                r.unit = Fraction(a.unit) / 2
             if a.orth == 'sigma':
                 r.orth = 'halfvec'
+            elif a.orth == 'eig':
+                r.orth = 'sing'
+                r.src = a.src
             r.nonneg = True
         elif short in ('cos', 'sin', 'arccos', 'exp', 'log', 'log2'):
             r.dt = 'f'
@@ -1091,6 +1095,9 @@ class CallsMixin:
                            b, None, env)
         wh = kw.get('where')
         outv = kw.get('out')
+        if a.has_const() and b.k == 'arr' and b.orth in ('sing', 'sigma'):
+            r.orth = 'invsing'
+            r.src = b.src
         if wh is not None and outv is not None:
             # division only where the mask holds, `out` elsewhere: guarded
             r.taint = a.taint | b.taint | outv.taint
@@ -1177,6 +1184,7 @@ class CallsMixin:
             r = ARR((a.dims[0], a.dims[0]), a.dt, taint=a.taint)
             r.orth = {'sigma': 'sigma', 'halfvec': 'half'}.get(a.orth)
             r.unit = a.unit
+            r.lg = a.lg
             return r
         if len(a.dims) == 2:
             return ARR((pmin(a.dims[0], a.dims[1]) if a.dims[0] is not None
@@ -1262,7 +1270,8 @@ class CallsMixin:
         self.site('S-ndim', node, 'ok')
         m, n = a.dims
         k = pmin(m, n) if m is not None and n is not None else None
-        q = ARR((m, k), 'f', orth='cols', taint=a.taint)
+        q = ARR((m, k), 'f', orth='cols', taint=a.taint,
+                lg=Lin(0) if a.lg is not None else None)
         r = ARR((k, n), 'f', orth='weighted', taint=a.taint, lg=a.lg,
                 unit=a.unit)
         return TUPLE([q, r])
@@ -1281,7 +1290,8 @@ class CallsMixin:
         k = pmin(m, n) if m is not None and n is not None else None
         if econ:
             r = ARR((m, k), 'f', orth='weighted', taint=a.taint, lg=a.lg)
-            q = ARR((k, n), 'f', orth='rows', taint=a.taint)
+            q = ARR((k, n), 'f', orth='rows', taint=a.taint,
+                    lg=Lin(0) if a.lg is not None else None)
         else:
             r = ARR((m, n), 'f', orth='weighted', taint=a.taint, lg=a.lg)
             q = ARR((n, n), 'f', orth='rows', taint=a.taint)
@@ -1299,10 +1309,11 @@ class CallsMixin:
         fm = kw.get('full_matrices')
         full = not (fm is not None and fm.has_const() and fm.c is False)
         k = pmin(m, n) if m is not None and n is not None else None
-        u = ARR((m, m if full else k), 'f', orth='cols', taint=a.taint)
+        z = Lin(0) if a.lg is not None else None
+        u = ARR((m, m if full else k), 'f', orth='cols', taint=a.taint, lg=z)
         s = ARR((k,), 'f', orth='sigma', taint=a.taint, nonneg=True,
                 unit=Fraction(1) if a.unit is None else a.unit, lg=a.lg)
-        v = ARR((n if full else k, n), 'f', orth='rows', taint=a.taint)
+        v = ARR((n if full else k, n), 'f', orth='rows', taint=a.taint, lg=z)
         return TUPLE([u, s, v])
 
     def x_numpy_linalg_eigh(self, pos, kw, node, env):
@@ -1313,10 +1324,14 @@ class CallsMixin:
                    what='matrix passed to eigh')
         n = a.dims[0]
         w = ARR((n,), 'f', taint=a.taint, orth='eig',
-                unit=a.unit if a.unit is not None else None)
+                unit=a.unit if a.unit is not None else None, lg=a.lg)
         w.src = a.src
-        u = ARR((n, n), 'f', orth='cols', taint=a.taint)
+        u = ARR((n, n), 'f', orth='cols', taint=a.taint,
+                lg=Lin(0) if a.lg is not None else None)
         u.src = a.src
+        if a.src is not None and a.src[0] == 'gram':
+            self.site('O-gram', node, 'ok', 'eigh of a Gram matrix (%s)'
+                      % a.src[1])
         return TUPLE([w, u])
 
     def x_scipy_linalg_lu(self, pos, kw, node, env):
